@@ -223,10 +223,59 @@ def rule_r4(ctx):
         ctx.fail(r, t, "timer expiry does not reconnect", t.line, "dialer_timer_cb no longer starts a connect when the timer fired normally")
 
 
+def rule_r7(ctx):
+    r = ctx.rule("C14.R7", "T2", "the 'somebody listens' flag follows the registrations: every pass through the locked section of "
+                 "nni_sock_set_pipe_cb stores false into s_want_evs before it stores true for a slot that holds a callback, so "
+                 "removing the last callback clears it (events must not start in the middle of a pipe's life)", floor=2)
+    f = ctx.prog.need("nni_sock_set_pipe_cb", "core/socket.c")
+    fals = G.stores(f, "s_want_evs", value="null")
+    tru = G.stores(f, "s_want_evs", value="nonnull")
+    if not tru:
+        raise AnalysisBroken("nni_sock_set_pipe_cb: s_want_evs is never set")
+    slot = [t for t in f.assigns() if G.field_is(t.node["lhs"], "cb_fn")]
+    if not slot:
+        raise AnalysisBroken("nni_sock_set_pipe_cb: slot store vanished")
+    okf = bool(fals) and not G.must_pass(f, (slot[0].b, slot[0].i + 1), G.positions(fals))
+    if okf:
+        r.ob(f, "s_want_evs reset on every registration change")
+    else:
+        ctx.fail(r, f, "s_want_evs never cleared", slot[0].line,
+                 "after a callback slot is changed the function can return without storing false into s_want_evs: once set the "
+                 "flag stays set when the last callback is removed, and a callback registered later receives ADD_POST / REM_POST "
+                 "for pipes whose ADD_PRE it never saw")
+    guard = G.nz_edges(f, lambda n: n.get("k") == "mem" and n["f"] == "cb_fn")
+    if all(G.dominated(f, (t.b, t.i), guard) for t in tru) and guard:
+        r.ob(f, "s_want_evs set only for a slot that holds a callback")
+    else:
+        ctx.fail(r, f, "s_want_evs set unconditionally", tru[0].line, "s_want_evs = true is not guarded by a registered callback")
+
+
+def rule_r8(ctx):
+    r = ctx.rule("C14.R8", "T3", "the redial back-off stays below its maximum: in dialer_timer_start_locked every growth of "
+                 "d_currtime is followed, on every path to the exit, by the comparison with d_maxrtime that clamps it", floor=1)
+    f = ctx.prog.need("dialer_timer_start_locked", "core/socket.c")
+    grow = [t for t in f.assigns() if G.field_is(t.node["lhs"], "d_currtime") and t.node.get("op") in ("*=", "+=", "<<=")]
+    grow += [t for t in f.assigns() if G.field_is(t.node["lhs"], "d_currtime") and t.node.get("op") == "=" and
+             any(m.get("k") == "bin" and m["op"] in ("*", "+", "<<") and "d_currtime" in show(m) for m in walk(f.expand(t.node["rhs"])))]
+    if not grow:
+        raise AnalysisBroken("dialer_timer_start_locked: back-off growth not found")
+    clamp = G.rel_edges(f, lambda n: G.field_is(n, "d_currtime"), lambda n: G.field_is(n, "d_maxrtime"), ">")
+    tests = {(b, len(f.blocks[b].elems)) for b in clamp} | {(b, max(len(f.blocks[b].elems) - 1, 0)) for b in clamp}
+    for t in grow:
+        if clamp and not G.must_pass(f, (t.b, t.i + 1), tests):
+            r.ob(f, "growth line %s followed by the clamp against d_maxrtime" % t.line)
+        else:
+            ctx.fail(r, f, "back-off grows after the clamp", t.line,
+                     "d_currtime is increased at line %s and can reach the exit without being compared with d_maxrtime again: the "
+                     "stored back-off exceeds NNG_OPT_RECONNMAXT" % t.line)
+
+
 def run(ctx):
     ctx.guard(rule_r1)
     ctx.guard(rule_r2)
     ctx.guard(rule_r4)
+    ctx.guard(rule_r7)
+    ctx.guard(rule_r8)
     ctx.guard(c11.rule_r4)
     for rr in ctx.rules:
         if rr.id == "C11.R4":
